@@ -20,15 +20,15 @@ from harness.core import st
 from harness.oracles import diff_bucket, exc_bucket, snapshot
 
 ID = "C14"
-RULE = ("(1) programs of U x 8 strings x 5 carriers; (2) collection/mapping/structured programs x 4 wire values x "
+RULE = ("(1) programs of U x 8 strings x 6 carriers (memoryview also as a window into a larger buffer); (2) collection/mapping/structured programs x 4 wire values x "
         "{value, JSON text, repr text}; (3) direct load/strload/decode on generated strict JSON, Python-literal text "
-        "and plain text in 5 carriers; non-trivial = carrier is bytearray / writable memoryview, or the text is a "
+        "and plain text in 6 carriers; non-trivial = carrier is bytearray / writable memoryview, or the text is a "
         "look-alike / malformed / non-ASCII / long repetitive string, or (2) JSON/repr text of a nested wire value; "
         "distinct by (spec, text, carrier) resp. (text, carrier)")
 ASSUMPTIONS = ["non-strict JSON (NaN, Infinity, lone surrogates, ints beyond 64 bit, nesting > 100) is not compared: orjson and stdlib json legitimately differ",
                "the JSON rendering in (2) is used only for str-keyed wire values (json.dumps itself rewrites other keys)"]
 TECHNIQUE = "property-based testing: metamorphic relation across five text carriers and three renderings; differential oracle against stdlib json / ast.literal_eval for serdes.load"
-LEVEL_TEXT = ("Exploration: every generated string is presented in all five carriers and the outcomes compared; wire values "
+LEVEL_TEXT = ("Exploration: every generated string is presented in all six carriers and the outcomes compared; wire values "
               "are presented decoded, as JSON text and as Python-literal text; serdes.load is compared with stdlib json on "
               "strict JSON and required to be the identity on text that is neither JSON nor a literal.")
 LEVEL_NOTE = "trusts stdlib json.loads and ast.literal_eval as the definition of 'JSON text' and 'Python literal'"
